@@ -151,7 +151,12 @@ for name in order:
     # the status/event function 0x20 is also accepted with the v6.62 protocol id 0x19
     somc = "(b[0] == 0x17 || b[0] == 0x19)" if code.lower() == "0x20" else f"b[0] == {som}"
     ct += [f"//@ func lemmaDecode{name}", "//@   params b", "//@   returns (m, err)",
-           f"//@   ensures header: err == nil ==> len(b) == 64 && {somc} && b[1] == {code}", ""]
+           f"//@   ensures header: err == nil ==> len(b) == 64 && {somc} && b[1] == {code}"]
+    slices = [f[0] for f in fields if f[1] in ("net.IP", "types.MacAddress", "net.HardwareAddr")]
+    if slices:
+        # decoded slices share no memory with the message buffer (C17)
+        ct.append("//@   ensures noalias: err == nil ==> " + " && ".join(f"!sameblock(m.{n}, b)" for n in slices))
+    ct.append("")
 
 open(os.path.join(SRC, "lemmas_verif.go"), "w").write("\n".join(go))
 open(os.path.join(SRC, "contracts_verif.go"), "w").write("\n".join(ct))
